@@ -159,3 +159,495 @@ def conservation(spec, st, obs, rs, rng):
             if not close(total(avg), total(occ) * rd):
                 vs.append(viol("C03", "avg-occurrences-total", f"{jn} in {pn}: occurrence-hours {float(total(avg))} vs occurrences×duration {float(total(occ) * rd)}"))
     return vs, ev
+
+
+# ---------------------------------------------------------------------------------------------
+# helpers over the real system
+# ---------------------------------------------------------------------------------------------
+def reachable(spec):
+    """names of servers / storages / networks reachable from the system's usage patterns"""
+    servers, storages, networks = [], [], []
+    for pn in spec["system"]["usage_patterns"]:
+        p = spec["patterns"][pn]
+        if p["network"] not in networks:
+            networks.append(p["network"])
+        for s in spec["journeys"][p["usage_journey"]]["uj_steps"]:
+            for j in spec["steps"][s]["jobs"]:
+                sv = spec["jobs"][j]["server"]
+                if sv not in servers:
+                    servers.append(sv)
+                    if spec["servers"][sv]["storage"] not in storages:
+                        storages.append(spec["servers"][sv]["storage"])
+    return servers, storages, networks
+
+
+def has_deletion(spec):
+    return any(j["data_stored"]["m"] < 0 for j in spec["jobs"].values())
+
+
+def all_finite(obs):
+    return all(realsys.finite(v) for v in obs.values())
+
+
+# ---------------------------------------------------------------------------------------------
+# C02 — the system footprint accounts for every component exactly once
+# ---------------------------------------------------------------------------------------------
+def accounting(spec, st, obs, rs, rng):
+    if st != "ok":
+        return [], 0
+    vs, ev = [], 0
+    servers, storages, networks = reachable(spec)
+    pats = spec["system"]["usage_patterns"]
+    parts = {}
+    for n in servers + storages:
+        parts[(n, "fab")] = series_phys(obs[(n, "instances_fabrication_footprint", "")])
+        parts[(n, "energy")] = series_phys(obs[(n, "energy_footprint", "")])
+    for n in networks:
+        parts[(n, "energy")] = series_phys(obs[(n, "energy_footprint", "")])
+    for n in pats:
+        parts[(n, "fab")] = series_phys(obs[(n, "instances_fabrication_footprint", "")])
+        parts[(n, "energy")] = series_phys(obs[(n, "energy_footprint", "")])
+    exp = {}
+    for s in parts.values():
+        exp = add(exp, s)
+    tot = series_phys(obs[("__system__", "total_footprint", "")])
+    ev += 1
+    for k in set(tot) | set(exp):
+        a, b = float(tot.get(k, 0)), float(exp.get(k, 0))
+        if abs(a - b) > 5.0001e-5 + 1e-9 * abs(b):
+            vs.append(viol("C02", "total-vs-parts", f"hour {k}: total {a!r} vs sum of parts {b!r}"))
+            break
+    # the views
+    sysobj = rs.system
+    inv = {o.id: n for n, o in rs.objs.items()}
+    try:
+        fab = sysobj.fabrication_footprints
+        en = sysobj.energy_footprints
+        tfab = sysobj.total_fabrication_footprints
+        ten = sysobj.total_energy_footprints
+        fab_sum = sysobj.fabrication_footprint_sum_over_period
+        en_sum = sysobj.energy_footprint_sum_over_period
+        tfab_sum = sysobj.total_fabrication_footprint_sum_over_period
+        ten_sum = sysobj.total_energy_footprint_sum_over_period
+    except Exception as e:  # noqa
+        return vs + [viol("C02", "views-raise", f"{type(e).__name__}: {e}")], ev
+    cats = {"Servers": servers, "Storage": storages, "Network": networks, "Devices": pats}
+    for kind, per_obj, per_cat, per_obj_sum, per_cat_sum in (("fab", fab, tfab, fab_sum, tfab_sum),
+                                                             ("energy", en, ten, en_sum, ten_sum)):
+        for cat, names in cats.items():
+            ev += 1
+            listed = {inv.get(k, k): realsys.canon(v) for k, v in per_obj[cat].items()}
+            want = set(names) if not (kind == "fab" and cat == "Network") else {"networks"}
+            if set(listed) != want:
+                vs.append(viol("C02", f"view-objects-{kind}-{cat}", f"listed {sorted(listed)} expected {sorted(want)}"))
+                continue
+            cat_exp = {}
+            for n in names:
+                if (n, kind) in parts:
+                    cat_exp = add(cat_exp, parts[(n, kind)])
+                    why = series_close(series_phys(listed[n]), parts[(n, kind)])
+                    if why:
+                        vs.append(viol("C02", f"view-per-object-{kind}", f"{cat}/{n}: {why}"))
+                    got_sum = scalar_phys(realsys.canon(per_obj_sum[cat][rs.objs[n].id]))
+                    if not close(got_sum, total(parts[(n, kind)]), 1e-300):
+                        vs.append(viol("C02", f"view-sum-over-period-{kind}", f"{cat}/{n}: {float(got_sum)} vs {float(total(parts[(n, kind)]))}"))
+            why = series_close(series_phys(realsys.canon(per_cat[cat])), cat_exp)
+            if why:
+                vs.append(viol("C02", f"view-per-category-{kind}", f"{cat}: {why}"))
+            got = scalar_phys(realsys.canon(per_cat_sum[cat]))
+            if not close(got, total(cat_exp), 1e-300):
+                vs.append(viol("C02", f"view-category-sum-{kind}", f"{cat}: {float(got)} vs {float(total(cat_exp))}"))
+    # finiteness and sign
+    ev += 1
+    if not all_finite(obs):
+        vs.append(viol("C02", "non-finite", "a calculated attribute contains NaN or inf"))
+    if not has_deletion(spec):
+        for (n, kind), s in parts.items():
+            if any(float(v) < -1e-12 for v in s.values()):
+                vs.append(viol("C02", "negative-footprint", f"{n} {kind} has a negative value without any deleting job"))
+                break
+    # energy footprint = energy × carbon intensity that applies
+    for n in servers:
+        ev += 1
+        ci = qphys(spec["servers"][n]["average_carbon_intensity"])
+        why = series_close(parts[(n, "energy")], scale(series_phys(obs[(n, "instances_energy", "")]), ci))
+        if why:
+            vs.append(viol("C02", "server-energy-footprint", f"{n}: {why}"))
+    for n in storages:
+        ev += 1
+        sv = [s for s, o in spec["servers"].items() if o["storage"] == n][0]
+        ci = qphys(spec["servers"][sv]["average_carbon_intensity"])
+        why = series_close(parts[(n, "energy")], scale(series_phys(obs[(n, "instances_energy", "")]), ci))
+        if why:
+            vs.append(viol("C02", "storage-energy-footprint", f"{n}: {why}"))
+    for n in pats:
+        ev += 1
+        ci = qphys(spec["countries"][spec["patterns"][n]["country"]]["average_carbon_intensity"])
+        why = series_close(parts[(n, "energy")], scale(series_phys(obs[(n, "devices_energy", "")]), ci))
+        if why:
+            vs.append(viol("C02", "devices-energy-footprint", f"{n}: {why}"))
+    for n in networks:
+        ev += 1
+        bei = qphys(spec["networks"][n]["bandwidth_energy_intensity"])
+        expn = {}
+        for pn, p in spec["patterns"].items():
+            if p["network"] != n:
+                continue
+            ci = qphys(spec["countries"][p["country"]]["average_carbon_intensity"])
+            seen = set()
+            for s in spec["journeys"][p["usage_journey"]]["uj_steps"]:
+                for j in spec["steps"][s]["jobs"]:
+                    if j in seen:
+                        continue
+                    seen.add(j)
+                    expn = add(expn, scale(series_phys(obs.get((j, "hourly_data_transferred_per_usage_pattern", pn))), bei * ci))
+        why = series_close(parts[(n, "energy")], expn)
+        if why:
+            vs.append(viol("C02", "network-energy-footprint", f"{n}: {why}"))
+    return vs, ev
+
+
+# ---------------------------------------------------------------------------------------------
+# C04 — infrastructure is sized to cover the need
+# ---------------------------------------------------------------------------------------------
+def near_int(x, rel=1e-9):
+    return abs(x - round(x)) <= rel * max(1.0, abs(x))
+
+
+def sizing(spec, st, obs, rs, rng):
+    vs, ev = [], 1
+    if st == "err":
+        if obs == "neg-storage" and not has_deletion(spec):
+            vs.append(viol("C04", "neg-storage-without-deletion", "a model in which no job deletes data is rejected for negative cumulative storage"))
+        if obs == "shape":
+            vs.append(viol("C04", "positional-combination", "jobs active over different time windows are combined by position (numpy broadcast error)"))
+        return vs, ev
+    servers, storages, _ = reachable(spec)
+    for n in servers:
+        sv = spec["servers"][n]
+        raw = series_phys(obs[(n, "raw_nb_of_instances", "")])
+        nb = series_phys(obs[(n, "nb_of_instances", "")])
+        ev += 1
+        if set(raw) != set(nb):
+            vs.append(viol("C04", "server-index", f"{n}: instance count and raw need have different hours"))
+            continue
+        if not raw:
+            continue
+        rawf = {k: float(v) for k, v in raw.items()}
+        nbf = {k: float(v) for k, v in nb.items()}
+        if sv["server_type"] == "serverless":
+            if any(not close(nbf[k], rawf[k], 1e-300) for k in raw):
+                vs.append(viol("C04", "serverless-not-raw", f"{n}: serverless instance count differs from the raw need"))
+        elif sv["server_type"] == "autoscaling":
+            for k in raw:
+                if near_int(rawf[k]):
+                    continue
+                if nbf[k] != math.ceil(rawf[k]):
+                    vs.append(viol("C04", "autoscaling-not-ceil", f"{n} hour {k}: {nbf[k]} instances for a raw need of {rawf[k]}"))
+                    break
+        else:
+            vals = set(nbf.values())
+            mx = max(rawf.values())
+            if len(vals) != 1:
+                vs.append(viol("C04", "on-premise-not-constant", f"{n}: on-premise instance count varies"))
+            else:
+                c = vals.pop()
+                fixed = sv.get("fixed_nb_of_instances")
+                if fixed is not None:
+                    if not close(c, float(qphys(fixed)), 1e-300):
+                        vs.append(viol("C04", "fixed-not-honoured", f"{n}: {c} instances but {float(qphys(fixed))} were fixed"))
+                    if c < math.ceil(mx) and not near_int(mx):
+                        vs.append(viol("C04", "fixed-under-provisions", f"{n}: fixed {c} < need {mx}"))
+                elif not near_int(mx) and c != math.ceil(mx):
+                    vs.append(viol("C04", "on-premise-not-ceil-of-peak", f"{n}: {c} instances for a peak raw need of {mx}"))
+        if any(nbf[k] < rawf[k] - 1e-9 * max(1.0, abs(rawf[k])) for k in raw):
+            vs.append(viol("C04", "server-under-provisioned", f"{n}: instance count below the raw need"))
+        # the raw need itself: max of RAM-based and CPU-based need
+        ram_need = series_phys(obs[(n, "hour_by_hour_ram_need", "")])
+        cpu_need = series_phys(obs[(n, "hour_by_hour_compute_need", "")])
+        ar = scalar_phys(obs[(n, "available_ram_per_instance", "")])
+        ac = scalar_phys(obs[(n, "available_compute_per_instance", "")])
+        if ar > 0 and ac > 0:
+            expraw = {k: max(ram_need.get(k, 0) / ar, cpu_need.get(k, 0) / ac) for k in set(ram_need) | set(cpu_need)}
+            why = series_close(raw, expraw)
+            if why:
+                vs.append(viol("C04", "server-raw-need", f"{n}: {why}"))
+    for n in storages:
+        sto = spec["storages"][n]
+        ev += 1
+        cap = qphys(sto["storage_capacity"])
+        repl = qphys(sto["data_replication_factor"])
+        base = qphys(sto["base_storage_need"])
+        svs = [s for s, o in spec["servers"].items() if o["storage"] == n]
+        jobs = [j for j, o in spec["jobs"].items() if o["server"] in svs]
+        needed, freed = {}, {}
+        for j in jobs:
+            ds = series_phys(obs.get((j, "hourly_data_stored_across_usage_patterns", "")))
+            if spec["jobs"][j]["data_stored"]["m"] >= 0:
+                needed = add(needed, scale(ds, repl))
+            else:
+                freed = add(freed, scale(ds, repl))
+        cum = series_phys(obs[(n, "full_cumulative_storage_need", "")])
+        nb = series_phys(obs[(n, "nb_of_instances", "")])
+        act = series_phys(obs[(n, "nb_of_active_instances", "")])
+        if not needed and not freed:
+            continue
+        dumps = {}
+        if needed:
+            dh = math.ceil(hours(sto["data_storage_duration"]))
+            last = max(needed)
+            dumps = {k: -v for k, v in shift(needed, dh).items() if k <= last}
+        delta = add(add(needed, freed), dumps)
+        # cumulative need at hour k = initial need + running sum of the delta up to k (the real series may
+        # carry extra hours at which nothing changes)
+        expc = {}
+        dk = sorted(delta)
+        for k in sorted(set(cum) | set(delta)):
+            expc[k] = base + sum((delta[s] for s in dk if s <= k), Fraction(0))
+        ref = max([abs(float(v)) for v in expc.values()] + [float(base), 0.0])
+        bad = [k for k in expc if k not in cum or abs(float(cum[k]) - float(expc[k])) > 1e-9 * ref + 1e-300]
+        if bad:
+            k = sorted(bad)[0]
+            vs.append(viol("C04", "storage-cumulative-formula", f"{n} hour {k}: cumulative {float(cum.get(k, 0))!r} expected {float(expc.get(k, 0))!r}"))
+        if any(float(v) < -1e-9 * ref for v in cum.values()):
+            vs.append(viol("C04", "storage-cumulative-negative", f"{n}: negative cumulative need accepted"))
+        for k in cum:
+            if float(nb.get(k, 0)) * float(cap) < float(cum[k]) - 1e-9 * max(ref, float(cap)):
+                vs.append(viol("C04", "storage-under-provisioned", f"{n} hour {k}: {float(nb.get(k, 0))} instances × capacity < cumulative need {float(cum[k])}"))
+                break
+        fixed = sto.get("fixed_nb_of_instances")
+        if fixed is not None and any(not close(v, qphys(fixed), 1e-300) for v in nb.values()):
+            vs.append(viol("C04", "storage-fixed-not-honoured", f"{n}: instance count differs from the fixed count"))
+        if fixed is None:
+            for k in cum:
+                r = float(cum[k]) / float(cap)
+                if not near_int(r) and float(nb.get(k, 0)) != math.ceil(r):
+                    vs.append(viol("C04", "storage-not-ceil", f"{n} hour {k}: {float(nb.get(k, 0))} instances for a raw need of {r}"))
+                    break
+        for k in act:
+            if float(act[k]) > float(nb.get(k, 0)) + 1e-9 * max(1.0, float(nb.get(k, 0))):
+                vs.append(viol("C04", "active-exceeds-provisioned", f"{n} hour {k}: {float(act[k])} active > {float(nb.get(k, 0))} provisioned"))
+                break
+    return vs, ev
+
+
+# ---------------------------------------------------------------------------------------------
+# comparing two builds physically
+# ---------------------------------------------------------------------------------------------
+def obs_diff(a, b, rel=REL, scale_of=None, skip_near_int_of=None):
+    """first difference between two observation dicts compared physically (None = equal).
+    scale_of: optional {(obj, attr): expected ratio b/a}"""
+    for key in sorted(set(a) | set(b)):
+        if key not in a or key not in b:
+            return f"{key}: present in one build only"
+        x, y = a[key], b[key]
+        k = (scale_of or {}).get((key[0], key[1]), 1)
+        if x is None or y is None:
+            if x is None and y is None:
+                continue
+            return f"{key}: empty in one build only"
+        if x["t"] != y["t"]:
+            return f"{key}: kind {x['t']} vs {y['t']}"
+        if tuple(x["dim"]) != tuple(y["dim"]):
+            return f"{key}: dimension {x['dim']} vs {y['dim']}"
+        if x["t"] == "q":
+            if not close(scalar_phys(x) * k, scalar_phys(y), 1e-300, rel):
+                return f"{key}: {float(scalar_phys(x) * k)!r} vs {float(scalar_phys(y))!r}"
+        else:
+            why = series_close(scale(series_phys(x), k), series_phys(y), rel)
+            if why:
+                return f"{key}: {why}"
+    return None
+
+
+def ceil_sensitive(spec, obs):
+    """objects whose instance count sits on a ceil discontinuity in this build (raw need within 1e-9 of an integer)"""
+    out = set()
+    for (o, a, k), v in obs.items():
+        if a == "raw_nb_of_instances" and v is not None and v["t"] == "h":
+            if any(near_int(float(x) * float(v["scale"])) and float(x) != 0 for x in v["vs"]):
+                out.add(o)
+    return out
+
+
+def drop_objects(obs, names):
+    return {k: v for k, v in obs.items() if k[0] not in names}
+
+
+# ---------------------------------------------------------------------------------------------
+# C10 — results do not depend on the units inputs are expressed in
+# ---------------------------------------------------------------------------------------------
+def unit_independence(spec, st, obs, rs, rng):
+    from harness import specgen, kcalc
+    spec2 = specgen.reexpress(spec, rng, realsys.unit_info)
+    if not specgen.spec_is_safe(spec2, realsys.unit_info):
+        return [], 0
+    st2, obs2, _ = kcalc.real_outcome(spec2)
+    if st != st2:
+        if "neg-storage" in (obs if st == "err" else "", obs2 if st2 == "err" else ""):
+            return [], 1       # sign test on a float-cancelled zero (D4), judged under C04
+        return [viol("C10", "outcome-differs", f"original build: {st} {obs if st == 'err' else ''}; re-expressed build: {st2} {obs2 if st2 == 'err' else ''}")], 1
+    if st == "err":
+        return ([] if obs == obs2 else [viol("C10", "error-differs", f"{obs} vs {obs2}")]), 1
+    sens = ceil_sensitive(spec, obs) | ceil_sensitive(spec2, obs2)
+    if sens:
+        sens |= {"__system__"}
+    why = obs_diff(drop_objects(obs, sens), drop_objects(obs2, sens))
+    if why:
+        return [viol("C10", "value-depends-on-unit:" + why.split(":")[0].split(",")[1].strip(" '\""), why)], 1
+    return [], 1
+
+
+# ---------------------------------------------------------------------------------------------
+# C12 — footprints respond to each driver in the documented proportion
+# ---------------------------------------------------------------------------------------------
+FOOT = ["instances_fabrication_footprint", "energy_footprint"]
+
+
+def scaling(spec, st, obs, rs, rng):
+    import copy
+    from harness import kcalc
+    if st != "ok":
+        return [], 0
+    servers, storages, networks = reachable(spec)
+    pats = spec["system"]["usage_patterns"]
+    k = rng.choice([2.0, 3.0, 0.5, 1.7])
+    kf = frac(k)
+    drivers = []
+    for sv in servers:
+        sto = spec["servers"][sv]["storage"]
+        drivers.append(("servers", sv, "power_usage_effectiveness", kf, {(sv, "instances_energy"): kf, (sv, "energy_footprint"): kf,
+                                                                        (sto, "instances_energy"): kf, (sto, "energy_footprint"): kf}))
+        drivers.append(("servers", sv, "average_carbon_intensity", kf, {(sv, "energy_footprint"): kf, (sto, "energy_footprint"): kf}))
+        if spec["servers"][sv].get("cls", "Server") == "Server":
+            drivers.append(("servers", sv, "carbon_footprint_fabrication", kf, {(sv, "instances_fabrication_footprint"): kf}))
+        drivers.append(("servers", sv, "lifespan", kf, {(sv, "instances_fabrication_footprint"): 1 / kf}))
+    for n in networks:
+        drivers.append(("networks", n, "bandwidth_energy_intensity", kf, {(n, "energy_footprint"): kf}))
+    for sto in storages:
+        drivers.append(("storages", sto, "carbon_footprint_fabrication_per_storage_capacity", kf,
+                        {(sto, "carbon_footprint_fabrication"): kf, (sto, "instances_fabrication_footprint"): kf}))
+        drivers.append(("storages", sto, "lifespan", kf, {(sto, "instances_fabrication_footprint"): 1 / kf}))
+    for pn in pats:
+        p = spec["patterns"][pn]
+        for d in p["devices"]:
+            users = [q for q in pats if d in spec["patterns"][q]["devices"]]
+            if len(p["devices"]) == 1 and all(len(spec["patterns"][q]["devices"]) == 1 for q in users):
+                exp_e = {}
+                exp_f = {}
+                for q in users:
+                    exp_e.update({(q, "devices_energy"): kf, (q, "devices_energy_footprint"): kf, (q, "energy_footprint"): kf})
+                    exp_f.update({(q, "devices_fabrication_footprint"): kf, (q, "instances_fabrication_footprint"): kf})
+                drivers.append(("devices", d, "power", kf, exp_e))
+                drivers.append(("devices", d, "carbon_footprint_fabrication", kf, exp_f))
+                drivers.append(("devices", d, "lifespan", kf, {a: 1 / kf for a in exp_f}))
+                drivers.append(("devices", d, "fraction_of_usage_time", kf, {a: 1 / kf for a in exp_f}))
+    # country carbon intensity drives the network footprint per pattern and the device energy footprint
+    for cn in {spec["patterns"][pn]["country"] for pn in pats}:
+        users = [q for q in pats if spec["patterns"][q]["country"] == cn]
+        exp = {}
+        for q in users:
+            exp.update({(q, "devices_energy_footprint"): kf, (q, "energy_footprint"): kf})
+        nets = {spec["patterns"][q]["network"] for q in users}
+        ok_nets = [n for n in nets if all(spec["patterns"][q]["country"] == cn for q in spec["patterns"] if spec["patterns"][q]["network"] == n)]
+        if len(ok_nets) == len(nets):
+            for n in nets:
+                exp[(n, "energy_footprint")] = kf
+            drivers.append(("countries", cn, "average_carbon_intensity", kf, exp))
+    # data transferred drives the network footprint
+    for jn in spec["jobs"]:
+        nets = set()
+        others = False
+        for pn in pats:
+            p = spec["patterns"][pn]
+            jobs_here = {j for s in spec["journeys"][p["usage_journey"]]["uj_steps"] for j in spec["steps"][s]["jobs"]}
+            if jn in jobs_here:
+                nets.add(p["network"])
+        for n in nets:
+            for pn in pats:
+                p = spec["patterns"][pn]
+                if p["network"] == n:
+                    jobs_here = {j for s in spec["journeys"][p["usage_journey"]]["uj_steps"] for j in spec["steps"][s]["jobs"]}
+                    if jobs_here - {jn}:
+                        others = True
+        if nets and not others:
+            exp = {(n, "energy_footprint"): kf for n in nets}
+            exp.update({(jn, "hourly_data_transferred_per_usage_pattern"): kf, (jn, "hourly_data_transferred_across_usage_patterns"): kf})
+            drivers.append(("jobs", jn, "data_transferred", kf, exp))
+    vs, ev = [], 0
+    picks = rng.sample(drivers, min(3, len(drivers))) if drivers else []
+    for kind, name, param, factor, expected in picks:
+        spec2 = copy.deepcopy(spec)
+        if param not in spec2[kind][name]:
+            continue
+        spec2[kind][name][param]["m"] = float(frac(spec2[kind][name][param]["m"]) * factor)
+        st2, obs2, _ = kcalc.real_outcome(spec2)
+        ev += 1
+        if st2 != "ok":
+            vs.append(viol("C12", f"scaled-build-fails:{param}", f"×{k} on {name}.{param}: {obs2}"))
+            continue
+        why = obs_diff(drop_objects(obs, {"__system__"}), drop_objects(obs2, {"__system__"}), scale_of=expected)
+        if why:
+            vs.append(viol("C12", f"{kind}.{param}", f"×{k} on {name}.{param}: {why}"))
+    # all traffic × k: every load-proportional quantity × k
+    spec3 = copy.deepcopy(spec)
+    for p in spec3["patterns"].values():
+        p["hourly_usage_journey_starts"]["values"] = [float(frac(v) * kf) for v in p["hourly_usage_journey_starts"]["values"]]
+    st3, obs3, _ = kcalc.real_outcome(spec3)
+    ev += 1
+    if st3 == "ok":
+        exp = {}
+        for (o, a, kk) in obs:
+            if o in spec["jobs"] or o in spec["networks"] or o in spec["patterns"]:
+                exp[(o, a)] = kf
+            if o in spec["servers"] and a in ("hour_by_hour_ram_need", "hour_by_hour_compute_need", "raw_nb_of_instances"):
+                exp[(o, a)] = kf
+            if o in spec["servers"] and spec["servers"][o]["server_type"] == "serverless" and a in (
+                    "nb_of_instances", "instances_fabrication_footprint", "instances_energy", "energy_footprint"):
+                exp[(o, a)] = kf
+        skip = {o for o in spec["servers"] if spec["servers"][o]["server_type"] != "serverless"} | set(spec["storages"]) | {"__system__"}
+        a1 = {key: v for key, v in obs.items() if not (key[0] in skip and (key[0], key[1]) not in exp)}
+        a3 = {key: v for key, v in obs3.items() if not (key[0] in skip and (key[0], key[1]) not in exp)}
+        why = obs_diff(a1, a3, scale_of=exp)
+        if why:
+            vs.append(viol("C12", "all-traffic", f"all starts ×{k}: {why}"))
+    elif obs3 not in ("fixed-instances", "neg-storage"):
+        vs.append(viol("C12", "all-traffic-build-fails", f"all starts ×{k}: {obs3}"))
+    return vs, ev
+
+
+# ---------------------------------------------------------------------------------------------
+# C19 — results are independent of creation order, identifiers, hashing and order-irrelevant lists
+# ---------------------------------------------------------------------------------------------
+def permuted(spec, rng):
+    import copy
+    from harness.realsys import KINDS
+    sp = copy.deepcopy(spec)
+    order = [(k, n) for k in KINDS for n in sp[k]]
+    rng.shuffle(order)
+    sp["order"] = order
+    rng.shuffle(sp["system"]["usage_patterns"])
+    for p in sp["patterns"].values():
+        rng.shuffle(p["devices"])
+    for s in sp["steps"].values():
+        rng.shuffle(s["jobs"])
+    return sp
+
+
+def order_independence(spec, st, obs, rs, rng):
+    from harness import kcalc
+    sp2 = permuted(spec, rng)
+    st2, obs2, _ = kcalc.real_outcome(sp2)
+    if st != st2:
+        if "neg-storage" in (obs if st == "err" else "", obs2 if st2 == "err" else ""):
+            return [], 1
+        return [viol("C19", "outcome-depends-on-order", f"{st} {obs if st == 'err' else ''} vs {st2} {obs2 if st2 == 'err' else ''}")], 1
+    if st == "err":
+        return ([] if obs == obs2 else [viol("C19", "error-depends-on-order", f"{obs} vs {obs2}")]), 1
+    sens = ceil_sensitive(spec, obs) | ceil_sensitive(sp2, obs2)
+    if sens:
+        sens |= {"__system__"}
+    why = obs_diff(drop_objects(obs, sens), drop_objects(obs2, sens))
+    if why:
+        return [viol("C19", "value-depends-on-order", why)], 1
+    return [], 1
